@@ -24,9 +24,9 @@ impl FileName {
             return None;
         }
         let stem = path.file_stem()?;
-        let mut parts = stem.to_str()?.splitn(2, '.');
-        let _name_prefix = parts.next()?;
-        let id: usize = parts.next()?.parse().ok()?;
+        // `<prefix>.<id>`: the prefix is chosen by the user and may itself contain dots
+        let (_name_prefix, id) = stem.to_str()?.rsplit_once('.')?;
+        let id: usize = id.parse().ok()?;
         Some(Self {
             id,
             path: path.into()
